@@ -414,10 +414,11 @@ def classify(code, seq):
 
 def run(ctx):
     rng = ctx.rng
-    n = ctx.scale(4500, 120000)
+    n = ctx.scale(3000, 120000)
     corpus = ["a. b. c.\n", "foo('a\\zb', 1). bar. baz.\n", "foo(a b). bar.\n", "foo(a)) . bar.\n", "foo('abc). bar.\n", "foo. /* unterminated bar.\n",
               "foo. bar", "foo. 0'", "foo(\x00). bar.\n", "f(\x01). c.\n", "a.\n\n", "a. % c\n", "f(`abc`). c.\n", "f(\"ab\\zc\"). c.\n", "f(a.\n g(b). h.\n",
-              "X = 'a\\x41\\b'. c.\n", "f('a\\\nb'). c.\n", "a :- b, c ; d -> e. x = y. 1 < 2. a* b+c.\n", "f(A,B,A,_). g(_X, Y, Y).\n", "", "f(\xa0). c.\n"]
+              "X = 'a\\x41\\b'. c.\n", "f('a\\\nb'). c.\n", "a :- b, c ; d -> e. x = y. 1 < 2. a* b+c.\n", "f(A,B,A,_). g(_X, Y, Y).\n", "", "f(\xa0). c.\n",
+              "Z .\nA", "foo.\nX", "a + ([). b.\n", "f(1.0e400). c.\n", "f(a;b). c.\n", "a.\n% last comment\n", "a. b. ). c. d.\n"]
     cases, seen = [], set()
     for t in corpus:
         cases.append((t, ["corpus"], None)); seen.add(t)
@@ -518,7 +519,7 @@ def run(ctx):
             f["what"] += " (%d texts in this run)" % per_key[f["key"]]
 
     samples = [{"text": cases[i][0], "mutations": cases[i][1], "impl": show_seq(impl[i][1]) if impl[i] and impl[i][0] == "seq" else str(impl[i])}
-               for i in list(range(21, min(27, len(cases))))]
+               for i in list(range(28, min(34, len(cases))))]
     dist["failure_keys"] = per_key
     return {"evaluations": len(exprs) + len(vexprs) + sum(per_key.get(k, 0) for k in per_key if k.startswith("reader:no-progress") or k in ("reader:panic", "reader:hang")),
             "distinct_nontrivial": nontriv,
